@@ -154,6 +154,15 @@ def build(case):
     return "\n".join(lines) + "\n", targets, links, slugs, heads
 
 
+def norm_name(x):
+    """docutils' rule for names: case-insensitive, runs of white space are one blank."""
+    return " ".join(x.lower().split())
+
+
+def NORM_TARGETS(targets):
+    return {norm_name(k): k for k in targets}
+
+
 def eval_case(ctx, case):
     from docutils import nodes
 
@@ -223,8 +232,9 @@ def eval_case(ctx, case):
         frag = lk["frag"]
         # expected resolution
         exp_node, exp_title, how = None, None, "missing"
-        if frag in targets:
-            t = targets[frag]
+        tkey = frag if frag in targets else NORM_TARGETS(targets).get(norm_name(frag))
+        if tkey is not None:
+            t = targets[tkey]
             how = "explicit"
             want = {"paragraph": (nodes.paragraph,), "heading": (nodes.section, nodes.rubric), "inline": (nodes.inline,), "admonition": (nodes.Admonition,)}[t["nodekind"]]
             exp_node = node_with(t["marker"], want)
@@ -247,7 +257,7 @@ def eval_case(ctx, case):
             exp_title = title.replace("`", "")
         text_children = [c for c in ref.children if not isinstance(c, nodes.system_message)]
         shown = "".join(c.astext() for c in text_children)
-        if how == "missing" and front_end == "sphinx" and (frag.lower() in targets or frag.lower() in slugs):
+        if how == "missing" and front_end == "sphinx" and frag.lower() in slugs:
             ctx.count("sphinx_case_variant_not_judged")  # Sphinx labels are case-insensitive by Sphinx' own rule
             for i, w in enumerate(warn_recs):
                 if repr(frag) in w["msg"] and i not in used_warn:
@@ -338,8 +348,8 @@ def make_case(R):
             if slug_titles and R.random() < 0.25:
                 name = slug0(R.choice(slug_titles))  # explicit name colliding with a heading slug
             else:
-                name = R.choice(["tgt", "my-target", "a_b", "ünï", "x"] + (["t.x", "sec 1", "a:b"] if tk in ("block_para", "block_heading", "dir_title", "dir_plain") else [])) + str(i)
-            if name in names or not name:
+                name = R.choice(["tgt", "my-target", "a_b", "ünï", "x", "Install-Guide", "My_Target", "UPPER", "Ünï-Cödé"] + (["t.x", "sec 1", "a:b"] if tk in ("block_para", "block_heading", "dir_title", "dir_plain") else [])) + str(i)
+            if name.lower() in [x.lower() for x in names] or not name:
                 name = f"n{i}"
             names.append(name)
             if tk in ("block_heading", "attr_heading") and cont in ("note", "tip-colon") and False:
@@ -361,7 +371,9 @@ def make_case(R):
             frag = R.choice(from_slugs)
         elif x < 0.85 and frs:
             f0 = R.choice(frs)
-            frag = f0.upper() if f0.upper() != f0 else f0 + "x"
+            frag = R.choice([f0.upper(), f0.lower(), f0.swapcase()])
+            if frag == f0:
+                frag = f0 + "x"
         else:
             frag = R.choice(["nowhere", "nowhere", "missing-1", "no such", "tgt99"])  # repeated on purpose: every link to the same missing name warns
         it = {"k": "link", "frag": frag, "spelling": R.choice(["text", "empty", "empty", "project", "project_text"]), "pos": R.choice(["top", "top", "quote", "list", "note", "tip-colon", "table", "footnote", "heading"])}
